@@ -399,10 +399,27 @@ impl CommitHandler for ExternalManifestCommitHandler {
                 write_res.size as u64,
                 write_res.e_tag.clone(),
             )
-            .await
-            .map_err(|_| CommitError::CommitConflict {});
+            .await;
 
-        if let Err(err) = res {
+        // An error does not tell us whether the conditional write went through (e.g. the
+        // reply was lost).  If the entry for this version points at our staged manifest then
+        // the commit succeeded and the staged manifest must be kept.
+        let committed = match &res {
+            Ok(_) => true,
+            Err(_) => match self
+                .external_manifest_store
+                .get(base_path.as_ref(), manifest.version)
+                .await
+            {
+                Ok(path) => path == staging_path.as_ref(),
+                Err(Error::NotFound { .. }) => false,
+                // We cannot tell who owns the version.  Keep the staged manifest (a reader
+                // finalises it if the entry turns out to be ours) and report the failure.
+                Err(e) => return Err(CommitError::OtherError(e)),
+            },
+        };
+
+        if !committed {
             // delete the staging manifest
             match object_store.inner.delete(&staging_path).await {
                 Ok(_) => {}
@@ -410,7 +427,7 @@ impl CommitHandler for ExternalManifestCommitHandler {
                 Err(e) => return Err(CommitError::OtherError(e.into())),
             }
             info!(target: TRACE_FILE_AUDIT, mode=AUDIT_MODE_DELETE, r#type=AUDIT_TYPE_MANIFEST, path = staging_path.as_ref());
-            return Err(err);
+            return Err(CommitError::CommitConflict {});
         }
 
         Ok(self
